@@ -152,8 +152,22 @@ def spec_enc(r):
 def py_eq_enc(a, b):
     """Python == on encoded scalars (enough for set/dict-key dedup of scalar-ish elements)"""
     num = {"b", "i", "f"}
-    if a[0] in num and b[0] in num:
-        return num_val(a) == num_val(b)
+
+    def number(j):
+        if j[0] in num:
+            return num_val(j)
+        if j[0] == "a" and j[1] in ("decimal.Decimal", "fractions.Fraction", "complex"):
+            try:
+                return {"decimal.Decimal": decimal.Decimal, "fractions.Fraction": fractions.Fraction, "complex": complex}[j[1]](j[2])
+            except Exception:  # noqa: BLE001
+                return None
+        return None
+    na, nb = number(a), number(b)
+    if na is not None and nb is not None:
+        try:
+            return bool(na == nb)       # Decimal('-0') == Decimal('0'), Fraction(1) == 1 ...
+        except Exception:  # noqa: BLE001
+            return False
     return morph.canon_val(a) == morph.canon_val(b)
 
 
